@@ -25,6 +25,10 @@ pub enum Op {
     MutexLock(ObjId),
     RwRead(ObjId),
     RwWrite(ObjId),
+    /// parking_lot's upgradable read: shared with readers, exclusive among upgradable readers and writers
+    RwUpgradable(ObjId),
+    /// upgrade of an upgradable read to a write lock: enabled when the last plain reader is gone
+    RwUpgrade(ObjId),
     /// begin a condvar wait: atomically release the mutex and enqueue as waiter
     CondWait(ObjId, ObjId),
     /// second half of a wait: blocked until notified *and* the mutex is free
@@ -48,7 +52,7 @@ pub enum Op {
 #[derive(Clone, Debug, Hash, PartialEq, Eq)]
 pub enum Obj {
     Mutex { owner: Option<Tid> },
-    RwLock { writer: Option<Tid>, readers: usize, waiting_writers: usize },
+    RwLock { writer: Option<Tid>, readers: usize, waiting_writers: usize, upgradable: Option<Tid> },
     Condvar { waiters: Vec<Tid>, notified: Vec<Tid> },
     Chan { len: usize, senders: usize, receivers: usize, cap: usize },
 }
@@ -206,7 +210,15 @@ impl State {
                 _ => unreachable!(),
             },
             Op::RwWrite(l) => match &self.objs[*l] {
-                Obj::RwLock { writer, readers, .. } => writer.is_none() && *readers == 0,
+                Obj::RwLock { writer, readers, upgradable, .. } => writer.is_none() && *readers == 0 && upgradable.is_none(),
+                _ => unreachable!(),
+            },
+            Op::RwUpgradable(l) => match &self.objs[*l] {
+                Obj::RwLock { writer, waiting_writers, upgradable, .. } => writer.is_none() && upgradable.is_none() && (!self.writer_pref || *waiting_writers == 0),
+                _ => unreachable!(),
+            },
+            Op::RwUpgrade(l) => match &self.objs[*l] {
+                Obj::RwLock { readers, .. } => *readers == 0,
                 _ => unreachable!(),
             },
             Op::CondReacquire(c, m) => {
@@ -389,6 +401,17 @@ impl State {
                     *waiting_writers -= 1;
                 }
             }
+            Op::RwUpgradable(l) => {
+                if let Obj::RwLock { upgradable, .. } = &mut self.objs[l] {
+                    *upgradable = Some(t);
+                }
+            }
+            Op::RwUpgrade(l) => {
+                if let Obj::RwLock { writer, upgradable, .. } = &mut self.objs[l] {
+                    *upgradable = None;
+                    *writer = Some(t);
+                }
+            }
             Op::CondWait(c, m) => {
                 self.objs[m] = Obj::Mutex { owner: None };
                 if let Obj::Condvar { waiters, .. } = &mut self.objs[c] {
@@ -442,10 +465,48 @@ fn wait_turn(mut st: MutexGuard<'static, State>, tid: Tid, epoch: u64) -> MutexG
 
 /// Scheduling point: declare `op`, let the scheduler pick who goes next, return when it is this
 /// thread's turn (the operation's scheduler-side effect has then been applied).
+/// Watchdog.  Every scheduling point and every start/end of an execution bumps `PROGRESS`; while an
+/// execution is active and nothing moves for `STALL_SECS`, the thread that holds the token is stuck
+/// in something the scheduler does not own (`std::thread::park`, a `std::sync` lock or channel, a
+/// sleep): the exploration cannot continue, and this is reported as a machinery failure (exit 2,
+/// never a verdict) instead of hanging until some outer time-out.
+static PROGRESS: std::sync::atomic::AtomicU64 = std::sync::atomic::AtomicU64::new(0);
+static IN_EXECUTION: std::sync::atomic::AtomicBool = std::sync::atomic::AtomicBool::new(false);
+const STALL_SECS: u64 = 45;
+fn watchdog() {
+    static START: std::sync::Once = std::sync::Once::new();
+    START.call_once(|| {
+        std::thread::Builder::new()
+            .name("detsched-watchdog".into())
+            .spawn(|| {
+                use std::sync::atomic::Ordering::SeqCst;
+                let mut last = PROGRESS.load(SeqCst);
+                let mut since = Instant::now();
+                loop {
+                    std::thread::sleep(Duration::from_millis(500));
+                    let now = PROGRESS.load(SeqCst);
+                    if now != last || !IN_EXECUTION.load(SeqCst) {
+                        last = now;
+                        since = Instant::now();
+                    } else if since.elapsed() > Duration::from_secs(STALL_SECS) {
+                        let who = match sched().st.try_lock() {
+                            Ok(st) => st.current.map(|t| st.threads.get(t).map(|th| th.name.clone()).unwrap_or_default()).unwrap_or_else(|| "?".into()),
+                            Err(_) => "?".into(),
+                        };
+                        eprintln!("detsched: no scheduling point reached for {STALL_SECS} s (running thread: {who}): the code under test blocks in a primitive the scheduler does not own (std::thread::park, std::sync, std::sync::mpsc, sleep...); no verdict is possible");
+                        std::process::exit(2);
+                    }
+                }
+            })
+            .ok();
+    });
+}
+
 pub fn point(op: Op) {
     if std::thread::panicking() {
         return;
     }
+    PROGRESS.fetch_add(1, std::sync::atomic::Ordering::SeqCst);
     let mut st = lock();
     if !st.active {
         return;
@@ -717,6 +778,9 @@ pub fn silence_panics() {
 /// Run one execution of `f` following `prefix`, then default choices.
 pub fn run_one(prefix: &[usize], cfg: &Config, f: impl FnOnce() + Send + 'static) -> RunResult {
     let epoch;
+    watchdog();
+    PROGRESS.fetch_add(1, std::sync::atomic::Ordering::SeqCst);
+    IN_EXECUTION.store(true, std::sync::atomic::Ordering::SeqCst);
     {
         let mut st = lock();
         assert!(!st.active, "detsched: nested run_one");
@@ -779,6 +843,7 @@ pub fn run_one(prefix: &[usize], cfg: &Config, f: impl FnOnce() + Send + 'static
         }
     }
     st.active = false;
+    IN_EXECUTION.store(false, std::sync::atomic::Ordering::SeqCst);
     st.monitor = None;
     let ops = st.ops.iter().map(|(t, op)| (st.threads[*t].name.clone(), op.clone())).collect();
     RunResult { trace: st.trace.clone(), verdict: st.verdict.clone(), log: st.log.clone(), ops, steps: st.steps, panicked }
